@@ -2,9 +2,12 @@
    singular systems are refused, malformed systems get errors, and the exported
    triangular substitution routines solve their systems.  Statements only;
    every proof is `exact` of a lemma of Proofs/Gauss.v.  All statements are about
-   the R instance of the model (exact arithmetic); rounding (the backward-error
-   envelope, "well-conditioned systems are never refused" in floating point) is measured by the
-   correspondence check and the exact oracle, not proved.
+   the R instance of the model (exact arithmetic), except the FLOAT blocks at the end of the file:
+   the componentwise backward error of the substitution routines (Proofs/SubstFloat.v) and of the
+   elimination phase of [ge] itself (Proofs/GaussFloat.v) is PROVED for the binary64 instance, under
+   per-operation no-overflow/no-underflow hypotheses checkable by computation.  That "well-conditioned
+   systems are never refused" in floating point, and the envelope on arbitrary inputs, are measured by
+   the correspondence check and the exact oracle, not proved.
    The model is Model/Gauss.v = spindalis/src/solvers/gaussian_elim.rs after the
    repair 20730a8 (flagged elimination / zero row => Err SingularMatrix, empty
    system => Err NonSquareMatrix). *)
@@ -250,3 +253,104 @@ Proof. exact Proofs.SubstFloat.ex_forward_hyps. Qed.
 Example c08_float_nonvacuous_back : exists x, back_substitution ex_u 3 ex_rhs ex_s0 = Ok x /\
   forall i, (i < 3)%nat -> back_row_ok ex_u 3 ex_rhs x i.
 Proof. exact Proofs.SubstFloat.ex_back_hyps. Qed.
+
+(* ---- FLOAT instance: backward error of the ELIMINATION phase of [ge] (Proofs/GaussFloat.v, Flocq) ----
+   The code does not store its multipliers (a[i][k] is left stale), so they are reconstructed by a ghost run:
+   [ge_ghost n tol A b] is the model's own loop [for_range 0 (n-1) (fe_step n tol)] on a state that carries two more
+   components, the matrix of the multipliers actually used (rows interchanged whenever the working rows are) and the
+   row permutation followed so far; its projection is the model's loop (Proofs.GaussFloat.proj_loop, any Num).
+   From it:  [ge_perm] = s,  [ge_L] = L (unit lower triangular: the multipliers),  [ge_W] = W (final working matrix
+   [fa st]),  [ge_U] = U (upper triangle of W),  [ge_y] = y (final right-hand side [fb st]).
+   [chain a l u m] : r_0 = a, r_(t+1) = r_t - l_t * u_t (arithmetic of the instance; Proofs/PLUFloat.v).
+   [PFinal n A s L U] : U_rc (r <= c) is the chain of length r from A_(s r)c over (L_r., U_.c); L_rc (c < r) is the
+   chain of length c divided by U_cc; L_rr = n1; zeros elsewhere.
+   [plu_entry_ok PA L U i k] (m = min i k): okmul (L i t) (U t k) for t < m; every chain link from PA_ik finite;
+   for k < i, okdiv (link m) (U k k).   [ge_rhs_ok Pb L y i]: okmul (L i t) (y t) for t < i; every link of the chain
+   from Pb_i over (L_i., y) finite. *)
+From SV Require Import Model.LU Proofs.LU Proofs.PLUFloat Proofs.GaussFloat.
+
+(* any Num instance: for an accepted system, s is a permutation, x is what back_substitution returns on (W, y), and
+   the outputs of the ghost run satisfy the chain recurrences from the rows of (A, b) permuted by s *)
+Theorem c08_ge_recurrences : forall (T : Type) (NT : Num T) (n : nat) (A : mat T) (b : vec T) (tol : T) (x : vec T),
+  ge n n A n b tol = Ok x ->
+  perm_on n (ge_perm n tol A b) /\
+  back_substitution (ge_W n tol A b) n (ge_y n tol A b) (vconst n0) = Ok x /\
+  PFinal n A (ge_perm n tol A b) (ge_L n tol A b) (ge_U n tol A b) /\
+  forall r, (r < n)%nat ->
+    ge_y n tol A b r = chain (b (ge_perm n tol A b r)) (fun t => ge_L n tol A b r t) (ge_y n tol A b) r.
+Proof. exact (@Proofs.GaussFloat.ge_ok_final). Qed.
+Check c08_ge_recurrences : forall (T : Type) (NT : Num T) (n : nat) (A : mat T) (b : vec T) (tol : T) (x : vec T),
+  ge n n A n b tol = Ok x ->
+  perm_on n (ge_perm n tol A b) /\
+  back_substitution (ge_W n tol A b) n (ge_y n tol A b) (vconst n0) = Ok x /\
+  PFinal n A (ge_perm n tol A b) (ge_L n tol A b) (ge_U n tol A b) /\
+  forall r, (r < n)%nat ->
+    ge_y n tol A b r = chain (b (ge_perm n tol A b r)) (fun t => ge_L n tol A b r t) (ge_y n tol A b) r.
+Print Assumptions c08_ge_recurrences.
+
+(* binary64: if ge returns x then s is a permutation of 0..n-1, x is what back_substitution returns on (W, y) (it reads
+   only U, so c08_back_substitution_float_error bounds |U x - y|), and
+   (1) |L U - P A| <= ((1+eps)^n - 1) |L| |U|  and  (2) |L y - P b| <= ((1+eps)^n - 1) |L| |y|  componentwise,
+   (P A) i k = A (s i) k, (P b) i = b (s i), eps = 2^-53: x solves a system close to the given one *)
+Theorem c08_ge_float_backward_error : forall (n : nat) (A : mat PrimFloat.float) (b : vec PrimFloat.float)
+                                             (tol : PrimFloat.float) (x : vec PrimFloat.float),
+  ge n n A n b tol = Ok x ->
+  let s := ge_perm n tol A b in
+  let L := ge_L n tol A b in
+  let U := ge_U n tol A b in
+  let y := ge_y n tol A b in
+  perm_on n s /\
+  back_substitution (ge_W n tol A b) n y (vconst n0) = Ok x /\
+  (forall i k, (i <= k)%nat -> U i k = ge_W n tol A b i k) /\
+  ((forall i k, (i < n)%nat -> (k < n)%nat -> plu_entry_ok (fun r c => A (s r) c) L U i k) ->
+   forall i k, (i < n)%nat -> (k < n)%nat ->
+     is_finite (Prim2B (L i k)) = true /\ is_finite (Prim2B (U i k)) = true /\
+     Rabs (mprod n (fun r c => B2R (Prim2B (L r c))) (fun r c => B2R (Prim2B (U r c))) i k
+           - B2R (Prim2B (A (s i) k)))
+     <= ((1 + bpow radix2 (-53)) ^ n - 1)
+        * mprod n (fun r c => Rabs (B2R (Prim2B (L r c)))) (fun r c => Rabs (B2R (Prim2B (U r c)))) i k) /\
+  ((forall i, (i < n)%nat -> ge_rhs_ok (fun r => b (s r)) L y i) ->
+   forall i, (i < n)%nat ->
+     is_finite (Prim2B (y i)) = true /\
+     Rabs (msum 0 n (fun t => B2R (Prim2B (L i t)) * B2R (Prim2B (y t))) - B2R (Prim2B (b (s i))))
+     <= ((1 + bpow radix2 (-53)) ^ n - 1)
+        * msum 0 n (fun t => Rabs (B2R (Prim2B (L i t))) * Rabs (B2R (Prim2B (y t))))).
+Proof. exact Proofs.GaussFloat.ge_float_backward_error. Qed.
+Check c08_ge_float_backward_error : forall (n : nat) (A : mat PrimFloat.float) (b : vec PrimFloat.float)
+                                             (tol : PrimFloat.float) (x : vec PrimFloat.float),
+  ge n n A n b tol = Ok x ->
+  let s := ge_perm n tol A b in
+  let L := ge_L n tol A b in
+  let U := ge_U n tol A b in
+  let y := ge_y n tol A b in
+  perm_on n s /\
+  back_substitution (ge_W n tol A b) n y (vconst n0) = Ok x /\
+  (forall i k, (i <= k)%nat -> U i k = ge_W n tol A b i k) /\
+  ((forall i k, (i < n)%nat -> (k < n)%nat -> plu_entry_ok (fun r c => A (s r) c) L U i k) ->
+   forall i k, (i < n)%nat -> (k < n)%nat ->
+     is_finite (Prim2B (L i k)) = true /\ is_finite (Prim2B (U i k)) = true /\
+     Rabs (mprod n (fun r c => B2R (Prim2B (L r c))) (fun r c => B2R (Prim2B (U r c))) i k
+           - B2R (Prim2B (A (s i) k)))
+     <= ((1 + bpow radix2 (-53)) ^ n - 1)
+        * mprod n (fun r c => Rabs (B2R (Prim2B (L r c)))) (fun r c => Rabs (B2R (Prim2B (U r c)))) i k) /\
+  ((forall i, (i < n)%nat -> ge_rhs_ok (fun r => b (s r)) L y i) ->
+   forall i, (i < n)%nat ->
+     is_finite (Prim2B (y i)) = true /\
+     Rabs (msum 0 n (fun t => B2R (Prim2B (L i t)) * B2R (Prim2B (y t))) - B2R (Prim2B (b (s i))))
+     <= ((1 + bpow radix2 (-53)) ^ n - 1)
+        * msum 0 n (fun t => Rabs (B2R (Prim2B (L i t))) * Rabs (B2R (Prim2B (y t))))).
+Print Assumptions c08_ge_float_backward_error.
+
+(* non-vacuity, by computation: A = [[1,2,3],[4,5,6],[7,8,10]] (ex_ge_a), b = [1,2,3] (ex_ge_b), tol = 1e-12 (ex_ge_tol),
+   in hex floats (Proofs/GaussFloat.v): the system is accepted, scaled pivoting interchanges rows twice (s = (2,0,1)),
+   the multipliers 1/7, 4/7, 1/2 are inexact, and every hypothesis of c08_ge_float_backward_error holds *)
+Example c08_float_nonvacuous_ge :
+  (exists x, ge 3 3 ex_ge_a 3 ex_ge_b ex_ge_tol = Ok x) /\
+  (forall i, (i < 3)%nat -> ge_perm 3 ex_ge_tol ex_ge_a ex_ge_b i = match i with 0 => 2 | 1 => 0 | _ => 1 end%nat) /\
+  (forall i k, (i < 3)%nat -> (k < 3)%nat ->
+     plu_entry_ok (fun r c => ex_ge_a (ge_perm 3 ex_ge_tol ex_ge_a ex_ge_b r) c)
+                  (ge_L 3 ex_ge_tol ex_ge_a ex_ge_b) (ge_U 3 ex_ge_tol ex_ge_a ex_ge_b) i k) /\
+  (forall i, (i < 3)%nat ->
+     ge_rhs_ok (fun r => ex_ge_b (ge_perm 3 ex_ge_tol ex_ge_a ex_ge_b r))
+               (ge_L 3 ex_ge_tol ex_ge_a ex_ge_b) (ge_y 3 ex_ge_tol ex_ge_a ex_ge_b) i).
+Proof. exact Proofs.GaussFloat.ex_ge_float_hyps. Qed.
